@@ -7,7 +7,7 @@ import re
 from . import e2_formula as F
 from . import ode_spaces as O
 from .core import AnchorError, Unsupported
-from .e1_srcmodel import dotted, walk_no_nested, parent, ancestors
+from .e1_srcmodel import dotted, walk_no_nested, parent, ancestors, utext
 from .e2_eval import Evaluator, Unknown, is_unknown, need
 
 NM, UNC, BASE = O.NM, O.UNC, O.BASE
@@ -140,7 +140,7 @@ def _precalcs(ctx, m_none):
     fn = ctx.src.func(NM, "SolveNewmark._newmark_precalcs")
 
     def cond(test, ev):
-        t = ast.unparse(test).replace(" ", "")
+        t = utext(test)
         return {"self.ksize==0": False, "self.misNone": m_none, "self.unc": True}.get(t)
 
     env = {"self.h": h, "self.b": B_, "self.k": K_}
@@ -199,7 +199,7 @@ def r2_code_equals_documentation(ctx):
     Ad = F.sym("Ad")
     for unc in (True, False):
         def cond(test, ev, unc=unc):
-            t = ast.unparse(test).replace(" ", "")
+            t = utext(test)
             return {"self.rfsize": False, "self.ksize==0": False, "self.nonlin_terms": False, "self.unc": unc,
                     "d0isNone": False, "v0isNone": False}.get(t)
 
@@ -221,7 +221,7 @@ def r2_code_equals_documentation(ctx):
             return NotImplemented
 
         def sub(node, ev):
-            t = ast.unparse(node).replace(" ", "")
+            t = utext(node)
             if t in ("d0[self.nonrf]",):
                 return d0
             if t in ("v0[self.nonrf]",):
@@ -292,7 +292,7 @@ def r1_four_branch_agreement(ctx):
     forms = {}
     for key, (lp, de) in arms.items():
         def sub(node, ev):
-            t = ast.unparse(node).replace(" ", "")
+            t = utext(node)
             tb = {"F[:,j]": F.sym("Fj"), "F[:,j-1]": F.sym("Fj1"), "F[:,j-2]": F.sym("Fj2"), "D[:,j-1]": F.sym("Dj1"), "D[:,j-2]": F.sym("Dj2"),
                   "F[:,-1]": F.sym("Fl"), "D[:,-1]": F.sym("Dl"), "D[:,-2]": F.sym("Dl2")}
             return tb.get(t, NotImplemented)
@@ -356,15 +356,15 @@ def r3_differences(ctx):
         not is_unknown(A[-1]) and A[-1].equals((De - 2 * D[-1] + D[-2]) / (h * h))
     ctx.check(okl, "tsolve: the last velocity and acceleration use the extrapolated step De in the same differences", sts[-1] if sts else fn)
     # nonlinear term placement
-    t = ast.unparse(fn).replace(" ", "")
+    t = utext(fn)
     ok = t.count("_get_nonlin(j-1)") == 2 and t.count("_get_nonlin(nt-1)") == 2
     ctx.check(ok, "tsolve: the nonlinear force of step j-1 feeds step j, and that of step nt-1 feeds the extra step", fn)
     gn = ctx.src.func(NM, "SolveNewmark.tsolve._get_nonlin")
-    t = ast.unparse(gn).replace(" ", "")
+    t = utext(gn)
     ok = "z=func(D,j,h,**args)" in t and "self.z[key][:,j]=z" in t and "N+=T@z" in t
     ctx.check(ok, "_get_nonlin: N_j = sum_k T_k z_k(D, j, h) and z is recorded at column j", gn)
     dn = ctx.src.func(NM, "SolveNewmark.def_nonlin")
-    t = ast.unparse(dn).replace(" ", "")
+    t = utext(dn)
     ok = "T=v[1]/self.Ad[:,None]" in t and "T=la.lu_solve(self.Ad,v[1])" in t
     ctx.check(ok, "def_nonlin: the nonlinear transforms are pre-divided by A like every other right-hand-side term", dn)
 
@@ -382,11 +382,11 @@ def r4_cdf_equals_unc_on_diagonal(ctx):
         ok = ok and isinstance(gp, ast.If) and p_ in gp.orelse and "isdiag(b)" in ast.unparse(gp.test) and "b.ndim==1" in ast.unparse(gp.test).replace(" ", "")
         ctx.check(ok, "_chk_diag_part: cdforces becomes True only on the `elif cd_as_force` arm reached when the damping is NOT diagonal - "
                       "with diagonal damping SolveCDF takes exactly SolveUnc's path", st)
-    t = ast.unparse(fn).replace(" ", "")
+    t = utext(fn)
     ok = "else:cdforces=False" in t.replace("\n", "") and "self.cdforces=cdforces" in t
     ctx.check(ok, "_chk_diag_part: a system that is not fully uncoupled resets cdforces to False", fn)
     c = ctx.src.func(CDF, "SolveCDF.__init__")
-    ok = "super().__init__(m,b,k,h,rb,rf,order,pre_eig,cd_as_force=True)" in ast.unparse(c).replace(" ", "")
+    ok = "super().__init__(m,b,k,h,rb,rf,order,pre_eig,cd_as_force=True)" in utext(c)
     ctx.check(ok, "SolveCDF.__init__ is SolveUnc.__init__ with cd_as_force=True and nothing else", c)
     for q in ("SolveCDF.generator", "SolveCDF.fsolve"):
         f2 = ctx.src.func(CDF, q)
@@ -424,7 +424,7 @@ def r5_implicit_update(ctx):
         return NotImplemented
 
     def sub(node, ev):
-        if ast.unparse(node).replace(" ", "") == "self.pc.Bp[:,None]":
+        if utext(node) == "self.pc.Bp[:,None]":
             return Bp
         return NotImplemented
 
